@@ -634,12 +634,17 @@ NONPD_LAYOUTS = [(2, "arr1"), (2, "vec_dict"), (3, "vec_nested"), (4, "arr2"), (
 BOUNDARY_LAYOUTS = [(2, "arr1"), (2, "vec_dict"), (3, "vec_nested"), (3, "vec_nested")]
 
 
+# (the rare value sits in the middle: Hypothesis favours the ends of a range)
+ONE_IN_6 = st.sampled_from([False, False, True, False, False, False])
+ONE_IN_10 = st.sampled_from([False] * 4 + [True] + [False] * 5)
+
+
 def hpd_recipes(tier):
     kmax = 10 if tier == "quick" else 16
 
     @st.composite
     def rec(draw):
-        long_run = draw(st.integers(0, 5)) == 0      # n = 24, slowly converging spectrum: >= 20 iterations
+        long_run = draw(ONE_IN_6)      # n = 24, slowly converging spectrum: >= 20 iterations
         n, kind = draw(st.sampled_from(HPD_LAYOUTS[-3:] if long_run else HPD_LAYOUTS))
         crit = draw(st.sampled_from(["default", "tol", "atol", "tol_atol", "resnorm", "resnorm", "resnorm_tol",
                                      "absdelta", "absdelta", "absdelta_tol", "both", "both"]))
@@ -657,8 +662,8 @@ def hpd_recipes(tier):
                 "x0": draw(st.booleans()), "crit": crit, "ord": draw(st.sampled_from([None, None, 1, 2, "inf"])),
                 "lev": lev, "lev2": draw(st.integers(92, 100)) if long_run else draw(st.integers(10, 100)),
                 "miniter": mi, "limit": draw(st.sampled_from(["none", "set", "set"])),
-                "fixed": draw(st.integers(1, 4)), "direct": draw(st.integers(0, 9)) == 0,
-                "public": draw(st.integers(0, 9)) == 0}
+                "fixed": draw(st.integers(1, 4)), "direct": draw(ONE_IN_10),
+                "public": draw(ONE_IN_10)}
     return rec()
 
 
@@ -768,7 +773,7 @@ def boundary_recipes(tier):
         cplx = draw(st.booleans())
         n, kind = draw(st.sampled_from(BOUNDARY_LAYOUTS))
         units = UNITS if cplx else UNITS[:2]
-        base = {"family": fam, "cplx": cplx, "kind": kind, "direct": draw(st.integers(0, 9)) == 0, "x0": None,
+        base = {"family": fam, "cplx": cplx, "kind": kind, "direct": draw(ONE_IN_10), "x0": None,
                 "ord": None, "miniter": None, "maxiter": None}
         if fam == "pair":
             lp, lq = draw(st.sampled_from(PAIRS))
@@ -1011,7 +1016,7 @@ def nonpd_recipes(tier):
                 "j": [_cj(v) for v in j], "x0": None if x0 is None else [_cj(v) for v in x0],
                 "raise": draw(st.booleans()), "crit": crit, "thr": draw(st.sampled_from([2.0 ** -20, 2.0 ** -10, 0.125, 1.0])),
                 "ord": draw(st.sampled_from([None, 1, "inf"])), "miniter": draw(st.sampled_from([None, None, 0, 1, 2])),
-                "maxiter": draw(st.sampled_from([None, None, 1, 2, 3, 5])), "direct": draw(st.integers(0, 9)) == 0}
+                "maxiter": draw(st.sampled_from([None, None, 1, 2, 3, 5])), "direct": draw(ONE_IN_10)}
     return rec()
 
 
